@@ -878,7 +878,12 @@ extractSHRT (
     Vec3<T>&           t,
     bool               exc /* = true */)
 {
-    return extractSHRT (mat, s, h, r, t, exc, r.order ());
+    // The Vec3 overload returns the angles in "XYZ layout" (x, y, z rotation
+    // in that order); an Euler stores them in the order of its axes.
+    Vec3<T> xyz;
+    if (!extractSHRT (mat, s, h, xyz, t, exc, r.order ())) return false;
+    r.setXYZVector (xyz);
+    return true;
 }
 
 template <class T>
